@@ -320,11 +320,43 @@ def rhist_model_kw(run):
     return kw
 
 
-def rhist_model_cfg(case):
-    cfg = dict(case["cfg"])
-    if case["cfg_w"] != "absent":
-        cfg["watchers"] = {"list": len(case["cfg_w"])}
-    return cfg
+def rhist_states(case):
+    """the configuration AT THE TIME OF EACH CALL: the initial overrides folded with the in-place edits made between the
+    runs.  An edit is [how, key, value]: how = "attr" (`config.run.<key> = v`) | "item" (`config.run[key] = v`) |
+    "envset" (`config.run.env[name] = v`, key = name) | "w" (`config.run.watchers = [...]`, value = watcher spec) |
+    "timeout" (`config.timeouts.command = v`).  Scalars and lists: the last write wins; env: entries accumulate.
+    Returns [(cfg for the model/oracle, timeouts.command, configured watcher spec or "absent")] per run."""
+    cfg, ct, cw = dict(case["cfg"]), case["cfg_timeout"], case["cfg_w"]
+    out = []
+    for run in case["runs"]:
+        for how, key, val in run.get("cfg_edit", []):
+            if how in ("attr", "item"):
+                cfg[key] = val
+            elif how == "envset":
+                cfg["env"] = {"map": dict((cfg.get("env") or {"map": {}})["map"], **{key: val})}
+            elif how == "w":
+                cw = val
+            elif how == "timeout":
+                ct = val
+        c = dict(cfg)
+        if cw != "absent":
+            c["watchers"] = {"list": len(cw)}
+        out.append((c, ct, cw))
+    return out
+
+
+def apply_cfg_edits(conf, run):
+    for how, key, val in run.get("cfg_edit", []):
+        if how == "attr":
+            setattr(conf.run, key, real(val))
+        elif how == "item":
+            conf.run[key] = real(val)
+        elif how == "envset":
+            conf.run.env[key] = val
+        elif how == "w":
+            conf.run.watchers = make_watchers(val, "stateless")
+        elif how == "timeout":
+            conf.timeouts.command = val
 
 
 def rhist_penv(case, run):
@@ -333,16 +365,16 @@ def rhist_penv(case, run):
 
 
 def rhist_lines(case):
-    cfg = rhist_model_cfg(case)
-    return [run_line({"cmd": r["cmd"], "kw": rhist_model_kw(r), "cfg": cfg, "cfg_timeout": case["cfg_timeout"],
-                      "penv": rhist_penv(case, r)}) for r in case["runs"]]
+    return [run_line({"cmd": r["cmd"], "kw": rhist_model_kw(r), "cfg": cfg, "cfg_timeout": ct, "penv": rhist_penv(case, r)})
+            for r, (cfg, ct, _) in zip(case["runs"], rhist_states(case))]
 
 
-def expected_writes(case, run):
+def expected_writes(case, run, cfg_w=None):
     """the ACTIVE watchers of a run are the resolution of THAT run's own call: kwarg if given (not None), else config,
     else the built-in default (none); each answers once per occurrence of its pattern in that run's output"""
     w = run["w"]
-    active = w if w not in ("absent", None) else ([] if case["cfg_w"] == "absent" else case["cfg_w"])
+    cfg_w = case["cfg_w"] if cfg_w is None else cfg_w
+    active = w if w not in ("absent", None) else ([] if cfg_w == "absent" else cfg_w)
     text = "".join(run["out"])
     return sorted(r for p, r in active for _ in range(text.count(p)))
 
@@ -362,8 +394,10 @@ def check_rhist(case, defaults):
         conf.run.watchers = make_watchers(case["cfg_w"], "stateless")
     r = Re(Context(conf))
     lines, why = [], None
-    cfg_model = rhist_model_cfg(case)
+    states = rhist_states(case)
     for i, run in enumerate(case["runs"]):
+        cfg_model, cfg_timeout, cfg_w = states[i]
+        apply_cfg_edits(conf, run)   # the SAME config object is edited in place between the runs
         r.rearm(run["out"], run.get("exited", 0))
         extra = {}
         if run["w"] not in ("absent", None):
@@ -374,19 +408,19 @@ def check_rhist(case, defaults):
         lines.append(line)
         if why is not None:
             continue
-        w = oracle_run({"cmd": run["cmd"], "kw": kw_model, "cfg": cfg_model, "cfg_timeout": case["cfg_timeout"],
+        w = oracle_run({"cmd": run["cmd"], "kw": kw_model, "cfg": cfg_model, "cfg_timeout": cfg_timeout,
                         "penv": penv}, facts, defaults)
         if w:
-            why = "run #%d of %d on one runner object (parent environment at the earlier calls: %r): %s" % (
-                i + 1, len(case["runs"]), [rhist_penv(case, x) for x in case["runs"][:i]], w)
+            why = "run #%d of %d on one runner object (parent environment at the earlier calls: %r; config edited in place before this call: %r): %s" % (
+                i + 1, len(case["runs"]), [rhist_penv(case, x) for x in case["runs"][:i]], run.get("cfg_edit", []), w)
             continue
         got = sorted(x.decode("utf-8", "replace") for x in r.stdin_writes)
         ran = facts["exc"] is None and facts["started"] is not None and not facts["opts"].get("disown")
-        want = expected_writes(case, run) if ran else []
+        want = expected_writes(case, run, cfg_w) if ran else []
         if got != want:
             why = ("run #%d of %d on one runner object: %r was written to the command's stdin, the watchers of THIS call "
                    "(kwarg %s, config %s) demand %r; output was %r; earlier runs had watchers %r" % (
-                       i + 1, len(case["runs"]), got, run["w"], case["cfg_w"], want, "".join(run["out"]),
+                       i + 1, len(case["runs"]), got, run["w"], cfg_w, want, "".join(run["out"]),
                        [x["w"] for x in case["runs"][:i]]))
     return " ## ".join(lines), why
 
@@ -1283,6 +1317,8 @@ def run(ctx):
         cfg_w = rng.choice(["absent", "absent", [], [list(rng.choice(PATS))]])
         runs, prev = [], []
         edit_env = i % 2 == 0
+        edit_cfg = i % 3 != 1
+        cfgp_now = [p for p, _ in cfg_w] if cfg_w != "absent" else []
         cur_env = dict(PENV)
         for j in range(rng.randint(2, 4)):
             kw = {}
@@ -1301,6 +1337,26 @@ def run(ctx):
             rng.shuffle(mention)
             run = {"cmd": "CMD-%d-%d" % (i, j), "kw": kw, "w": w, "out": gen_out(mention),
                    "exited": 0, "flavour": rng.choice(["stateless", "responder"])}
+            # the config is edited IN PLACE between the runs (attribute and item syntax, any run.* option, timeouts.command)
+            if edit_cfg and j > 0:
+                edits = []
+                for _ in range(rng.randint(1, 3)):
+                    x = rng.random()
+                    if x < 0.6:
+                        k = rng.choice([k for k in rh_keys if k != "env"])
+                        edits.append([rng.choice(["attr", "item"]), k, rng.choice(DOM_CFG[k])])
+                    elif x < 0.75:
+                        edits.append(["envset", rng.choice(["A", "C", "NEW"]), rng.choice(["e1", "e2", ""])])
+                    elif x < 0.9:
+                        edits.append(["w", None, rng.choice([[], [list(rng.choice(PATS))]])])
+                    else:
+                        edits.append(["timeout", None, rng.choice([None, 7, 9])])
+                run["cfg_edit"] = edits
+                for how, k, v in edits:
+                    if how == "w":
+                        cfgp_now[:] = [p for p, _ in v]
+                # later output should mention the newly configured watchers' patterns as well
+                run["out"] = gen_out(list(dict.fromkeys(mention + cfgp_now)))
             # os.environ is added to / changed / deleted from between the runs; env / replace_env per run
             if edit_env:
                 for _ in range(rng.randint(0, 2) if j else 0):
@@ -1368,6 +1424,9 @@ def run(ctx):
             got, why = check_rhist(c, defaults)
             out.hist["rhist"] += 1
             out.hist["rhist:runs"] += len(c["runs"])
+            for rr in c["runs"]:
+                for how, k, _ in rr.get("cfg_edit", []):
+                    out.hist["rhist:config-edited-in-place:" + (how if how not in ("attr", "item") else how + ":" + k)] += 1
             for a, b in zip(c["runs"], c["runs"][1:]):
                 if "penv" in b:
                     pa, pb = a["penv"], b["penv"]
